@@ -454,6 +454,15 @@ def _enumeration_shard(args):
         local.fails = sub.fails  # so that only the first failure of a signature is minimised
         for table in systematic_tables(config) + magic_tables(config, number):
             check_case(local, {"config": config, "table": table, "columns": 1}, shrink=True)
+        # the magic cells once more under a declared 8-bit code page (it matters where cutplace opens the file itself)
+        code_page = ("cp1252", "latin-1", "cp850", "cp437")[number % 4]
+        for table in magic_tables(config, number):
+            try:
+                ("".join(cell for row in table for cell in row) + config["delimiter"] + config["quote"]
+                 + config["escape"]).encode(code_page)
+            except UnicodeError:
+                continue
+            check_case(local, {"config": dict(config, encoding=code_page), "table": table, "columns": 1}, shrink=True)
         # the same tables behind a declared header of 1 or 2 rows (every 4th configuration): what a header row holds
         # - line breaks, quotes, delimiters - must not shift the rows behind it
         if number % 320 == 0:
